@@ -98,11 +98,24 @@ def run_merge(fn: FuncInfo, a: dict[str, Rat], b: dict[str, Rat]) -> tuple[dict[
         env[f"{pb}.{f}"] = b[f]
     it = RatInterp(env)
     other: dict[str, str] = {}
+    import copy as _copy
+    held: dict[str, ast.AST] = {}    # locals holding something that is not a moment expression (a mask such as `a["count"] == 0`)
+
+    class _Subst(ast.NodeTransformer):
+        def visit_Name(self, node):  # noqa: N802
+            return _copy.deepcopy(held[node.id]) if isinstance(node.ctx, ast.Load) and node.id in held else node
+
     for st in _body(fn):
         tgt = st.targets[0] if isinstance(st, ast.Assign) else (st.target if isinstance(st, ast.AugAssign) else None)
         if tgt is None:
             raise AnalysisError(f"unsupported statement in {fn.name}: {norm(st)[:60]}")
+        if held:
+            st = _copy.copy(st)
+            st.value = _Subst().visit(_copy.deepcopy(st.value))
         if isinstance(tgt, ast.Name):
+            if isinstance(st, ast.Assign) and any(isinstance(n_, (ast.Compare, ast.BoolOp)) for n_ in ast.walk(st.value)) and tgt.id not in it.env:
+                held[tgt.id] = st.value     # substituted where it is used
+                continue
             it.env[tgt.id] = it.ev(st.value)
             continue
         key = RatInterp.field_key(tgt)
